@@ -127,7 +127,7 @@ macro_rules! mat_lay {
     // square matrix with N columns of vector type V
     ($T:ident, $S:ty, $N:tt, $NN:expr, $V:ident, asref: $asref:tt) => {{
         let mk = |e: &[$S]| -> $T { <$T>::from_cols_array(&core::array::from_fn(|k| e[k])) };
-        let colv = |e: &[$S], c: usize| -> $V { <$V>::from_array(core::array::from_fn(|r| e[c * $N + r])) };
+        let colv = |e: &[$S], c: usize| -> $V { crate::gen::mkv(core::array::from_fn(|r| e[c * $N + r])) };
         let mut writers: Vec<(&'static str, Box<dyn Fn(&[$S]) -> $T>)> = vec![
             ("from_cols_array", Box::new(mk)),
             ("from_cols", Box::new(move |e| mat_lay!(@from_cols $N, $T, colv, e))),
@@ -182,7 +182,7 @@ macro_rules! mat_lay {
 
 macro_rules! aff_lay {
     ($T:ident, $S:ty, $C:tt, $R:expr, $NN:expr, $V:ident, $lin:ident) => {{
-        let colv = |e: &[$S], c: usize| -> $V { <$V>::from_array(core::array::from_fn(|r| e[c * $R + r])) };
+        let colv = |e: &[$S], c: usize| -> $V { crate::gen::mkv(core::array::from_fn(|r| e[c * $R + r])) };
         LayApi::<$S, $T> {
             name: stringify!($T),
             cols: $C,
@@ -343,6 +343,150 @@ fn affine_laws(mon: &mut Monitor) {
     aff2!("DAffine2", f64, DAffine2, DVec2);
 }
 
+/// Product laws for every matrix / affine type and every mixed pair with an operator: M*v = sum of v[c]*col(c),
+/// (A*B)*v = A*(B*v), both against the f64 product of the stored entries (bound (2n+4) eps (|A||B||v|)_r).
+fn product_laws(mon: &mut Monitor) {
+    let iters = mon.n(600, 60_000);
+    struct Case {
+        name: &'static str,
+        n: usize,
+        eps: f64,
+        /// which operands are affine (homogeneous last row 0..0 1) and whether v is a point (last entry 1)
+        affine: (bool, bool, bool),
+        /// (A, B, v as column-major f64 entries of n x n / n) -> ((A*B)*v, A*(B*v), [M*v for M in {A}] , sum v[c]*col_c(A))
+        run: Box<dyn Fn(&[f64], &[f64], &[f64]) -> (Vec<f64>, Vec<f64>, Vec<f64>, Vec<f64>)>,
+    }
+    fn a3<const K: usize>(e: &[f64], idx: [usize; K]) -> [f32; K] { core::array::from_fn(|k| e[idx[k]] as f32) }
+    fn d3<const K: usize>(e: &[f64], idx: [usize; K]) -> [f64; K] { core::array::from_fn(|k| e[idx[k]]) }
+    const AFF3: [usize; 12] = [0, 1, 2, 4, 5, 6, 8, 9, 10, 12, 13, 14];
+    const AFF2: [usize; 6] = [0, 1, 3, 4, 6, 7];
+    const ALL16: [usize; 16] = [0, 1, 2, 3, 4, 5, 6, 7, 8, 9, 10, 11, 12, 13, 14, 15];
+    const ALL9: [usize; 9] = [0, 1, 2, 3, 4, 5, 6, 7, 8];
+    const ALL4: [usize; 4] = [0, 1, 2, 3];
+    fn f(v: &[f32]) -> Vec<f64> { v.iter().map(|x| *x as f64).collect() }
+    let mut cases: Vec<Case> = vec![];
+    macro_rules! sq {
+        ($name:expr, $M:ident, $V:ident, $n:expr, $idx:ident, $cv:ident, $eps:expr, $fv:expr) => {
+            cases.push(Case { name: $name, n: $n, eps: $eps, affine: (false, false, false), run: Box::new(|a, b, v| {
+                let (ma, mb) = (<$M>::from_cols_array(&$cv(a, $idx)), <$M>::from_cols_array(&$cv(b, $idx)));
+                let vv: $V = crate::gen::mkv($cv(v, core::array::from_fn::<usize, $n, _>(|k| k)));
+                let mut sum = <$V>::ZERO;
+                for c in 0..$n { sum += <$V>::from(ma.col(c)) * vv[c]; }
+                ($fv(((ma * mb) * vv).to_array().as_slice()), $fv((ma * (mb * vv)).to_array().as_slice()), $fv((ma * vv).to_array().as_slice()), $fv(sum.to_array().as_slice()))
+            }) });
+        };
+    }
+    fn idf(v: &[f64]) -> Vec<f64> { v.to_vec() }
+    sq!("Mat2", Mat2, Vec2, 2, ALL4, a3, f32::EPSILON as f64, f);
+    sq!("Mat3", Mat3, Vec3, 3, ALL9, a3, f32::EPSILON as f64, f);
+    sq!("Mat3 (Vec3A)", Mat3, Vec3A, 3, ALL9, a3, f32::EPSILON as f64, f);
+    sq!("Mat3A", Mat3A, Vec3A, 3, ALL9, a3, f32::EPSILON as f64, f);
+    sq!("Mat4", Mat4, Vec4, 4, ALL16, a3, f32::EPSILON as f64, f);
+    sq!("DMat2", DMat2, DVec2, 2, ALL4, d3, f64::EPSILON, idf);
+    sq!("DMat3", DMat3, DVec3, 3, ALL9, d3, f64::EPSILON, idf);
+    sq!("DMat4", DMat4, DVec4, 4, ALL16, d3, f64::EPSILON, idf);
+    // Mat3A * Vec3 exists too
+    cases.push(Case { name: "Mat3A (Vec3)", n: 3, eps: f32::EPSILON as f64, affine: (false, false, false), run: Box::new(|a, b, v| {
+        let (ma, mb) = (Mat3A::from_cols_array(&a3(a, ALL9)), Mat3A::from_cols_array(&a3(b, ALL9)));
+        let vv = Vec3::from_array(a3(v, [0, 1, 2]));
+        let mut sum = Vec3::ZERO;
+        for c in 0..3 { sum += Vec3::from(ma.col(c)) * vv[c]; }
+        (f(&((ma * mb) * vv).to_array()), f(&(ma * (mb * vv)).to_array()), f(&(ma * vv).to_array()), f(&sum.to_array()))
+    }) });
+    // affine x affine, acting on points and vectors
+    macro_rules! aff {
+        ($name:expr, $A:ident, $V:ident, $n:expr, $idx:ident, $cv:ident, $eps:expr, $fv:expr, $tp:ident, $pidx:expr, $point:expr) => {
+            cases.push(Case { name: $name, n: $n, eps: $eps, affine: (true, true, $point), run: Box::new(|a, b, v| {
+                let (ma, mb) = (<$A>::from_cols_array(&$cv(a, $idx)), <$A>::from_cols_array(&$cv(b, $idx)));
+                let vv: $V = crate::gen::mkv($cv(v, $pidx));
+                let pad = |mut x: Vec<f64>| { x.push(if $point { 1.0 } else { 0.0 }); x };
+                (pad($fv((ma * mb).$tp(vv).to_array().as_slice())), pad($fv(ma.$tp(mb.$tp(vv)).to_array().as_slice())), pad($fv(ma.$tp(vv).to_array().as_slice())), vec![])
+            }) });
+        };
+    }
+    aff!("Affine3A points", Affine3A, Vec3, 4, AFF3, a3, f32::EPSILON as f64, f, transform_point3, [0, 1, 2], true);
+    aff!("Affine3A vectors", Affine3A, Vec3, 4, AFF3, a3, f32::EPSILON as f64, f, transform_vector3, [0, 1, 2], false);
+    aff!("Affine3A points (Vec3A)", Affine3A, Vec3A, 4, AFF3, a3, f32::EPSILON as f64, f, transform_point3a, [0, 1, 2], true);
+    aff!("Affine3A vectors (Vec3A)", Affine3A, Vec3A, 4, AFF3, a3, f32::EPSILON as f64, f, transform_vector3a, [0, 1, 2], false);
+    aff!("DAffine3 points", DAffine3, DVec3, 4, AFF3, d3, f64::EPSILON, idf, transform_point3, [0, 1, 2], true);
+    aff!("DAffine3 vectors", DAffine3, DVec3, 4, AFF3, d3, f64::EPSILON, idf, transform_vector3, [0, 1, 2], false);
+    aff!("Affine2 points", Affine2, Vec2, 3, AFF2, a3, f32::EPSILON as f64, f, transform_point2, [0, 1], true);
+    aff!("Affine2 vectors", Affine2, Vec2, 3, AFF2, a3, f32::EPSILON as f64, f, transform_vector2, [0, 1], false);
+    aff!("DAffine2 points", DAffine2, DVec2, 3, AFF2, d3, f64::EPSILON, idf, transform_point2, [0, 1], true);
+    aff!("DAffine2 vectors", DAffine2, DVec2, 3, AFF2, d3, f64::EPSILON, idf, transform_vector2, [0, 1], false);
+    // mixed pairs: the product is a full matrix acting on homogeneous vectors
+    macro_rules! mixed {
+        ($name:expr, $n:expr, $eps:expr, $fv:expr, $affa:expr, $affb:expr, |$a:ident, $b:ident, $v:ident| $mka:expr, $mkb:expr, $mkv:expr) => {
+            cases.push(Case { name: $name, n: $n, eps: $eps, affine: ($affa, $affb, false), run: Box::new(|$a, $b, $v| {
+                let (ma, mb, vv) = ($mka, $mkb, $mkv);
+                ($fv(((ma * mb) * vv).to_array().as_slice()), vec![], vec![], vec![])
+            }) });
+        };
+    }
+    mixed!("Affine3A * Mat4", 4, f32::EPSILON as f64, f, true, false, |a, b, v| Affine3A::from_cols_array(&a3(a, AFF3)), Mat4::from_cols_array(&a3(b, ALL16)), Vec4::from_array(a3(v, ALL4)));
+    mixed!("Mat4 * Affine3A", 4, f32::EPSILON as f64, f, false, true, |a, b, v| Mat4::from_cols_array(&a3(a, ALL16)), Affine3A::from_cols_array(&a3(b, AFF3)), Vec4::from_array(a3(v, ALL4)));
+    mixed!("DAffine3 * DMat4", 4, f64::EPSILON, idf, true, false, |a, b, v| DAffine3::from_cols_array(&d3(a, AFF3)), DMat4::from_cols_array(&d3(b, ALL16)), DVec4::from_array(d3(v, ALL4)));
+    mixed!("DMat4 * DAffine3", 4, f64::EPSILON, idf, false, true, |a, b, v| DMat4::from_cols_array(&d3(a, ALL16)), DAffine3::from_cols_array(&d3(b, AFF3)), DVec4::from_array(d3(v, ALL4)));
+    mixed!("Affine2 * Mat3", 3, f32::EPSILON as f64, f, true, false, |a, b, v| Affine2::from_cols_array(&a3(a, AFF2)), Mat3::from_cols_array(&a3(b, ALL9)), Vec3::from_array(a3(v, [0, 1, 2])));
+    mixed!("Mat3 * Affine2", 3, f32::EPSILON as f64, f, false, true, |a, b, v| Mat3::from_cols_array(&a3(a, ALL9)), Affine2::from_cols_array(&a3(b, AFF2)), Vec3::from_array(a3(v, [0, 1, 2])));
+    mixed!("Affine2 * Mat3A", 3, f32::EPSILON as f64, f, true, false, |a, b, v| Affine2::from_cols_array(&a3(a, AFF2)), Mat3A::from_cols_array(&a3(b, ALL9)), Vec3A::from_array(a3(v, [0, 1, 2])));
+    mixed!("Mat3A * Affine2", 3, f32::EPSILON as f64, f, false, true, |a, b, v| Mat3A::from_cols_array(&a3(a, ALL9)), Affine2::from_cols_array(&a3(b, AFF2)), Vec3A::from_array(a3(v, [0, 1, 2])));
+    mixed!("DAffine2 * DMat3", 3, f64::EPSILON, idf, true, false, |a, b, v| DAffine2::from_cols_array(&d3(a, AFF2)), DMat3::from_cols_array(&d3(b, ALL9)), DVec3::from_array(d3(v, [0, 1, 2])));
+    mixed!("DMat3 * DAffine2", 3, f64::EPSILON, idf, false, true, |a, b, v| DMat3::from_cols_array(&d3(a, ALL9)), DAffine2::from_cols_array(&d3(b, AFF2)), DVec3::from_array(d3(v, [0, 1, 2])));
+
+    for case in &cases {
+        if let Some(mut c) = mon.begin(case.name, "M*v = sum v[c]*col(c), (A*B)*v = A*(B*v)") {
+            let mut rng = Rng::new(mon.op_seed(case.name, "product laws"));
+            let n = case.n;
+            let f32ty = case.eps > 1e-10;
+            for it in 0..iters {
+                let span = [0.0, 2.0, 6.0][(it % 3) as usize];
+                let mut gen = |aff: bool, r: &mut Rng| -> Vec<f64> {
+                    (0..n * n).map(|k| {
+                        let (col, row) = (k / n, k % n);
+                        if aff && row == n - 1 { if col == n - 1 { 1.0 } else { 0.0 } } else {
+                            let x = r.logmag(-span, span) * if r.bool() { 1.0 } else { -1.0 };
+                            if f32ty { x as f32 as f64 } else { x }
+                        }
+                    }).collect()
+                };
+                let (a, b) = (gen(case.affine.0, &mut rng), gen(case.affine.1, &mut rng));
+                let any_aff = case.affine.0 && case.affine.1;
+                let v: Vec<f64> = (0..n).map(|k| if any_aff && k == n - 1 { if case.affine.2 { 1.0 } else { 0.0 } } else { let x = rng.logmag(-span, span) * if rng.bool() { 1.0 } else { -1.0 }; if f32ty { x as f32 as f64 } else { x } }).collect();
+                let (lhs, rhs, mv, colsum) = (case.run)(&a, &b, &v);
+                c.event(it % 3 + 3 * (n as u64), true);
+                let at = |m: &[f64], r: usize, cc: usize| m[cc * n + r];
+                // exact-ish references in f64 (inputs are f32 values for the f32 types; for f64 types the bound covers the reference's own rounding)
+                let bv: Vec<f64> = (0..n).map(|r| (0..n).map(|k| at(&b, r, k) * v[k]).sum()).collect();
+                let abv: Vec<f64> = (0..n).map(|r| (0..n).map(|k| at(&a, r, k) * bv[k]).sum()).collect();
+                let sbv: Vec<f64> = (0..n).map(|r| (0..n).map(|k| (at(&b, r, k) * v[k]).abs()).sum()).collect();
+                let sabv: Vec<f64> = (0..n).map(|r| (0..n).map(|k| at(&a, r, k).abs() * sbv[k]).sum()).collect();
+                let av: Vec<f64> = (0..n).map(|r| (0..n).map(|k| at(&a, r, k) * v[k]).sum()).collect();
+                let sav: Vec<f64> = (0..n).map(|r| (0..n).map(|k| (at(&a, r, k) * v[k]).abs()).sum()).collect();
+                let kk = (2 * n + 4) as f64;
+                let inp = || format!("A={:?} B={:?} v={:?}", a, b, v);
+                let mut cmp = |c: &mut OpCtx, what: &'static str, got: &[f64], want: &[f64], scale: &[f64]| {
+                    for r in 0..got.len().min(n) {
+                        let tol = kk * case.eps * scale[r] + 1e-300;
+                        let e = (got[r] - want[r]).abs();
+                        c.ratio_t(what, e / tol);
+                        if !(e <= tol) {
+                            if c.wants_witness("product_law", &[what]) { c.violation("product_law", &[what], inp(), format!("{:?}", got), format!("{:?}", want), format!("row {}", r)); } else { c.st.violations += 1; }
+                            break;
+                        }
+                    }
+                };
+                cmp(&mut c, "(A*B)*v", &lhs, &abv, &sabv);
+                if !rhs.is_empty() { cmp(&mut c, "A*(B*v)", &rhs, &abv, &sabv); }
+                if !mv.is_empty() { cmp(&mut c, "A*v", &mv, &av, &sav); }
+                if !colsum.is_empty() { cmp(&mut c, "sum v[c]*col(c)", &colsum, &av, &sav); }
+            }
+            c.sample(format!("{}: (A*B)*v, A*(B*v), A*v and sum v[c]*col(c) against the f64 products of the stored entries", case.name));
+            mon.end(c);
+        }
+    }
+}
+
 fn canaries(mon: &mut Monitor) {
     mon.canary("to_cols_array listing rows first", |m| {
         let mut api = mat_lay!(Mat3, f32, 3, 9, Vec3, asref: yes);
@@ -382,4 +526,5 @@ pub fn run(mon: &mut Monitor) {
     suite(mon, &aff_lay!(DAffine3, f64, 4, 3, 12, DVec3, matrix3));
     minors(mon);
     affine_laws(mon);
+    product_laws(mon);
 }
